@@ -4,6 +4,7 @@
   token list, every amount of fuel; scanner behaviour is a parameter (property C07).
 -/
 import ApiFu.C06.Lemmas
+import ApiFu.C06.Fuel
 
 namespace ApiFu.C06
 
@@ -242,5 +243,31 @@ theorem parse_value_sound (maxRec : Nat) (inp : Input) (v : Value) (errs : List 
     exact ⟨hwf, ts, st'.toks, hts, hren⟩
   | fail es => rw [hr] at h; simp [Res.outcome] at h
   | oof => rw [hr] at h; simp [Res.outcome] at h
+
+
+/-- **parse_fuel_sufficient** — the model's own fuel never runs out: `ParseDocument`/`ParseValue` of the
+    model always produce one of the two outcomes of the Go functions (a returned node with the error
+    list, or a recovered `panic(*Error)`), for every input, every `maxRecursion`, with and without the
+    F-12a fix. In particular nesting beyond the limit ends in an ordinary error value. -/
+theorem parse_fuel_sufficient (maxRec : Nat) (inp : Input) (leak : Bool) :
+    ParseDocument maxRec inp leak ≠ .outOfFuel ∧ ParseValue maxRec inp ≠ .outOfFuel := by
+  constructor
+  · unfold ParseDocument
+    have h := parseDocument_enough (inp.env maxRec leak) inp.init (defaultFuel inp)
+      (by simp [defaultFuel, Input.init]; omega)
+    unfold wp at h
+    cases hr : parseDocument (defaultFuel inp) (inp.env maxRec leak) inp.init with
+    | ok a st' => simp [Res.outcome]
+    | fail es => simp [Res.outcome]
+    | oof => rw [hr] at h; exact h.elim
+  · unfold ParseValue
+    have h : wp False (parseValue (defaultFuel inp) false) (inp.env maxRec) inp.init _ _ :=
+      parseValue_enough false (inp.env maxRec) inp.init (defaultFuel inp)
+        (by simp [defaultFuel, Input.init]; omega)
+    unfold wp at h
+    cases hr : parseValue (defaultFuel inp) false (inp.env maxRec) inp.init with
+    | ok a st' => simp [Res.outcome]
+    | fail es => simp [Res.outcome]
+    | oof => rw [hr] at h; exact h.elim
 
 end ApiFu.C06
